@@ -1,6 +1,7 @@
 import Driver.Util
 import WildModel.Model.Layout
 import WildModel.Model.LayoutCheck
+import WildModel.Model.ShdrExt
 /-!
 Driver ops for C04.
 
@@ -138,6 +139,12 @@ private def errStr : LayoutError → String
 
 def opsLayout (t : List String) : Option String :=
   match t with
+  | ["shdr-ext", n, s] => do
+    -- section count + .shstrtab index -> e_shnum e_shstrndx sh_size(0) sh_link(0)
+    let shnum ← n.toNat?
+    let shstrndx ← s.toNat?
+    let h := Wild.ShdrExt.encode shnum shstrndx
+    some s!"e_shnum={h.eShnum} e_shstrndx={h.eShstrndx} sh0_size={h.sh0Size} sh0_link={h.sh0Link}"
   | "layout" :: ts =>
     match parseLayoutReq ts with
     | none => some "bad-request"
